@@ -186,4 +186,20 @@ def Race (tr : List Ev) : Prop :=
     and by the non-vacuity examples) -/
 def wfB (tr : List Ev) : Bool := (runL LState.init tr).isSome
 
+def holdsB (s : LState) (t : Tid) (h : Hold) : Bool :=
+  match h.mode with
+  | .excl => (s h.m).writer == some t
+  | .shared => (s h.m).readers.contains t
+
+/-- executable form of `Respects` for a concrete execution -/
+def respectsB (tbl : List Access) (tr : List Ev) : Bool :=
+  (List.range tr.length).all fun i =>
+    match tr[i]? with
+    | some (.acc t a) =>
+      tbl.contains a && a.locks.all fun h =>
+        match runL LState.init (tr.take i) with
+        | some s => holdsB s t h
+        | none => false
+    | _ => true
+
 end KV.Lockset
